@@ -10,7 +10,9 @@ import (
 	"os"
 	"path/filepath"
 	"regexp"
+	"strconv"
 	"strings"
+	"sync"
 	"testing"
 	"time"
 
@@ -20,6 +22,7 @@ import (
 	xerrors "github.com/qiniu/x/errors"
 	"pgregory.net/rapid"
 
+	"verif/internal/gen/lex"
 	"verif/internal/gen/pkggen"
 	"verif/internal/vk"
 	"verif/internal/xcl"
@@ -69,14 +72,15 @@ func checkPositions(err error, fset *gotoken.FileSet, files map[string]string) *
 		}
 		if !pos.IsValid() {
 			cls := "error-without-position:" + strings.TrimPrefix(fmt.Sprintf("%T", e), "*gogen.")
-			if _, ok := e.(*gogen.CodeError); ok {
-				// CodeErrors come from many sites: one listed finding per message, not per type (the
-				// other two types are created at a single site each, without a position)
-				cls += "/" + gist(e.Error())
+			if _, ok := e.(*gogen.CodeError); ok && fromCl(e.Error()) {
+				// a CodeError whose text is one of cl's own messages was created in this repository
+				// (newCodeErrorf / handleErrorf always get a position): that is not the listed finding
+				// about errors that gogen creates without one
+				cls += "-from-cl/" + gist(e.Error())
 			}
 			return vk.Bad(cls, "%T carries an invalid position: %q", e, e.Error())
 		}
-		p := fset.Position(pos)
+		p := fset.PositionFor(pos, false) // unadjusted: a //line or /*line*/ directive inside the source renames positions, not files
 		name := strings.TrimPrefix(p.Filename, "/foo/")
 		src, ok := files[name]
 		if !ok {
@@ -108,6 +112,50 @@ func init() {
 		panic print println real imag complex close recover unsafe`) {
 		diagWords[w] = true
 	}
+}
+
+// clFormats: the message formats of the errors cl creates itself, read from the repository's
+// cl/*.go (string literal arguments of newCodeErrorf, newCodeError and handleErrorf), as regexps.
+var (
+	clFormatsOnce sync.Once
+	clFormats     []*regexp.Regexp
+)
+
+var errCall = regexp.MustCompile("(?:newCodeErrorf|newCodeError|handleErrorf)\\([^\"`\\n]*\"((?:[^\"\\\\]|\\\\.)*)\"")
+
+func fromCl(msg string) bool {
+	clFormatsOnce.Do(func() {
+		files, _ := filepath.Glob(filepath.Join(lex.RepoDir(), "cl", "*.go"))
+		seen := map[string]bool{}
+		for _, f := range files {
+			if strings.HasSuffix(f, "_test.go") {
+				continue
+			}
+			src, err := os.ReadFile(f)
+			if err != nil {
+				continue
+			}
+			for _, m := range errCall.FindAllStringSubmatch(string(src), -1) {
+				lit, err := strconv.Unquote("\"" + m[1] + "\"")
+				if err != nil || seen[lit] || len(strings.Trim(lit, "%vsdqT# ")) < 6 { // formats that are nearly all verbs match anything
+					continue
+				}
+				seen[lit] = true
+				re := regexp.QuoteMeta(lit)
+				re = regexp.MustCompile(`%[#+]?[a-zA-Z]`).ReplaceAllString(re, ".*")
+				if r, err := regexp.Compile("(?s)^(-: )?" + re + "$"); err == nil {
+					clFormats = append(clFormats, r)
+				}
+			}
+		}
+	})
+	first := strings.SplitN(msg, "\n", 2)[0]
+	for _, r := range clFormats {
+		if r.MatchString(msg) || r.MatchString(first) {
+			return true
+		}
+	}
+	return false
 }
 
 var letters = regexp.MustCompile(`[A-Za-z]+`)
